@@ -60,9 +60,15 @@ def make_case(prop, seed, i, tier):
         spec = G.perturb_fixture(rng, fixtures()[name])
         spec["sim"]["max_time"] = 60
     else:
-        spec = G.gen_random(rng, G.profile(facility_rich=rng.random() < 0.35, max_time=50, ensure_worker=0.9, max_tasks=7))
+        spec = G.gen_random(rng, G.profile(facility_rich=rng.random() < 0.35, max_time=50, ensure_worker=0.97, max_tasks=7))
     add_due_times(rng, spec)
-    return dict(prop=prop, i=i, spec=spec, tier=tier, due=rng.random() < 0.6, reverse=rng.random() < 0.6, pseed=rng.randrange(10 ** 9))
+    mode = "inject" if i % 3 == 0 else "order"
+    if mode == "order" and rng.random() < 0.7:
+        # dependency-order workload: own workers (the backward run succeeds), mixed kinds with many FS links
+        spec = G.gen_random(rng, G.profile(facilities=False, comps=False, max_time=60, ensure_worker=1.0, min_tasks=3, max_tasks=8,
+                                           kinds=(G.FS, G.FS, G.FS, G.SS, G.FF, G.SF), fixed_lists=False, solo=False, p_edge=(0.25, 0.6)))
+        add_due_times(rng, spec)
+    return dict(prop=prop, i=i, spec=spec, tier=tier, mode=mode, due=rng.random() < 0.6, reverse=rng.random() < 0.6, pseed=rng.randrange(10 ** 9))
 
 
 def backward(p, spec, due, reverse):
@@ -148,18 +154,26 @@ def run_case(case):
     tr2 = I.Tracer([])
     M.check_alignment(tr2, p, prop="C17", mech="C17/logs-misaligned-after-backward", context="after backward_simulate(due=%s, reverse=%s)" % (due, reverse))
     res.absorb(tr2, props=("C17",))
-    if reverse and p.status == ns.BaseProjectStatus.FINISHED_SUCCESS:
+    if p.status == ns.BaseProjectStatus.FINISHED_SUCCESS:
+        res.count("C17.successful_backward_runs")
         for t in m.tasks:
             for pred, dep in t.input_task_list:
                 if dep != DEP.FS:
                     continue
                 res.count("C17.fs_order_checks")
-                sw = [k for k, s in enumerate(t.state_record_list) if s == TS.WORKING]
-                pw = [k for k, s in enumerate(pred.state_record_list) if s == TS.WORKING]
+                # time-reversed logs: as left by the run (reverse=True) or reversed here (reverse=False)
+                tl = t.state_record_list if reverse else t.state_record_list[::-1]
+                pl_ = pred.state_record_list if reverse else pred.state_record_list[::-1]
+                sw = [k for k, s in enumerate(tl) if s == TS.WORKING]
+                pw = [k for k, s in enumerate(pl_) if s == TS.WORKING]
                 if sw and pw and sw[0] <= pw[-1]:
                     res.violate("C17", "C17/reversed-log-violates-FS",
                                 "reversed backward logs: task %s logged WORKING at step %d while its FS predecessor %s is still WORKING at step %d" % (t.ID, sw[0], pred.ID, pw[-1]))
     check_after(res, p, m, before, fwd, spec, "successful backward run")
+    if case.get("mode") == "order":
+        res.count("C17.order_only_cases")
+        res["nontrivial"] = res["counters"].get("C17.fs_order_checks", 0) > 0
+        return res
     # ---- fault injection: an exception raised from the observer at (step, phase)
     points = pl.points
     if case["tier"] == "thorough":
